@@ -6,6 +6,7 @@ ROOT="$(cd "$(dirname "$0")/.." && pwd)"
 cd "$ROOT"
 tier="${1:-quick}"
 for s in $(ls seeded); do
+  if grep -q '"base_commit"' seeded/$s/meta.json; then echo "SEED $s: superseded by a later fix of /repo (see base_commit in its meta.json); skipped" >&2; continue; fi
   id=$(python3 -c "
 import json,re,sys
 m=json.load(open('seeded/$s/meta.json'))
